@@ -248,6 +248,17 @@ func callPaths(r *lib.Run) {
 		}
 		plan := map[enode.ID]pr{}
 		covered := 0
+		// identity of each peer's table entry object (0 = not an entry)
+		entryObjects := func() map[enode.ID]uintptr {
+			m := map[enode.ID]uintptr{}
+			for _, b := range node.P.VerifTable().VerifSnapshot(false).Buckets {
+				for _, e := range b.Entries {
+					m[e.ID] = e.Inc
+				}
+			}
+			return m
+		}
+		atReport := map[enode.ID]uintptr{}
 		for _, a := range gpeers {
 			d := storeutil.BE(storeutil.Xor(a.ID(), id))
 			rads := radiusCases(crng, d)
@@ -256,6 +267,7 @@ func callPaths(r *lib.Run) {
 				r.Inconclusive("gossip case %d: radius report not acknowledged", i)
 				return
 			}
+			atReport[a.ID()] = entryObjects()[a.ID()]
 			if crng.Intn(3) == 0 {
 				// the local user adds the same record again (portal_historyAddEnr): a peer that is already known keeps the
 				// radius it reported
@@ -269,21 +281,18 @@ func callPaths(r *lib.Run) {
 			}
 		}
 		// gossip only considers table entries; the table's own revalidation may drop a peer at any time (these
-		// scripted peers do not answer the node's pings), so a peer is judged only if it is an entry both
-		// before and after the call
-		entries := func() map[enode.ID]bool {
-			m := map[enode.ID]bool{}
-			for _, b := range node.P.VerifTable().VerifSnapshot(false).Buckets {
-				for _, e := range b.Entries {
-					m[e.ID] = true
-				}
-			}
-			return m
-		}
-		before := entries()
+		// scripted peers do not answer the node's pings), and a peer that was dropped after its report and added
+		// again by the AddEnr step above is a NEW entry, to which AddEnr gives the maximum radius by design. So a
+		// peer is judged only if the entry object it had when its report was acknowledged is still its entry
+		// after the call (the verif snapshot carries the identity of each entry object).
 		sel, err := node.P.GossipAndReturnPeers(nil, [][]byte{key}, [][]byte{{1}})
-		after := entries()
-		inTable := func(id enode.ID) bool { return before[id] && after[id] }
+		after := entryObjects()
+		inTable := func(id enode.ID) bool { return atReport[id] != 0 && after[id] == atReport[id] }
+		for pid := range plan {
+			if !inTable(pid) {
+				r.Count("gossip_path_peers_not_judged_entry_dropped_or_replaced_since_its_report", 1)
+			}
+		}
 		covered = 0
 		for pid, p := range plan {
 			if p.in && inTable(pid) {
@@ -301,6 +310,9 @@ func callPaths(r *lib.Run) {
 			p, known := plan[n.ID()]
 			if !known {
 				continue // the offerer of the OFFER path: radius never reported in a supported way
+			}
+			if !inTable(n.ID()) {
+				continue // a new entry since the report: its radius is whatever it was added with
 			}
 			if !p.in && !p.boundary {
 				r.Violation("inrange-path:gossip-target-out-of-range", fmt.Sprintf("gossip picked peer %x.. whose reported radius %s does not cover the content (distance from the PEER %s)", n.ID().Bytes()[:4], p.rad.Hex(), storeutil.BE(storeutil.Xor(n.ID(), id)).Hex()),
